@@ -126,14 +126,19 @@ RecEnd ==
 
 -----------------------------------------------------------------------------
 (* the file the recorder writes *)
-SplitAt == IF cfg.split = 1 /\ Len(tape) >= 2 THEN Len(tape) \div 2 ELSE 0
+\* cfg.split: 0 one block; 1 a second block whose snapshot is the state reached ("same"); 2 a second block whose
+\* snapshot is "stale" (not the state the frames continue from - playable only with flag 4)
+SplitAt == IF cfg.split > 0 /\ Len(tape) >= 2 THEN Len(tape) \div 2 ELSE 0
+Stale(m) == [m EXCEPT !.r[rA] = (@ + 85) % 256, !.r[rPC] = W16(@ + 1)]
 Plain(a, b) == [i \in 1..(b + 1 - a) |-> [fc |-> tape[a + i - 1].fc, ins |-> tape[a + i - 1].ins]]
 MkFile == LET F == Len(tape)  s == SplitAt  m0 == [r |-> cfg.prog[1], ov |-> cfg.prog[2]] IN
-  IF s = 0 THEN << [snap |-> Save(m0, cfg.fmt), fs |-> Encode(Plain(1, F)), base |-> 0] >>
-  ELSE << [snap |-> Save(m0, cfg.fmt), fs |-> Encode(Plain(1, s)), base |-> 0],
-          [snap |-> Save(tape[s].after, cfg.fmt), fs |-> Encode(Plain(s + 1, F)), base |-> s] >>
+  IF s = 0 THEN << [snap |-> Save(m0, cfg.fmt), fs |-> Encode(Plain(1, F)), base |-> 0, snapmode |-> "first"] >>
+  ELSE << [snap |-> Save(m0, cfg.fmt), fs |-> Encode(Plain(1, s)), base |-> 0, snapmode |-> "first"],
+          [snap |-> IF cfg.split = 2 THEN Stale(Save(tape[s].after, cfg.fmt)) ELSE Save(tape[s].after, cfg.fmt),
+           fs |-> Encode(Plain(s + 1, F)), base |-> s, snapmode |-> IF cfg.split = 2 THEN "stale" ELSE "same"] >>
 EndsOf(b) == [i \in 1..Len(b.fs) |-> tape[b.base + i]]
-ConvMatches(f, fl) == \A k \in 1..Len(fl) : ConvMatchesBlock(f, fl[k].fs, EndsOf(fl[k]))
+ConvMatches(f, fl) == \A k \in 1..Len(fl) : /\ ConvMatchesBlock(f, fl[k].fs, EndsOf(fl[k]))
+                                             /\ SnapshotUseMatches(f, fl[k].snapmode)
 
 -----------------------------------------------------------------------------
 (* player *)
@@ -198,7 +203,7 @@ NextBlock ==
 StopAndWrite(k, fmt) ==
   /\ phase \in {"play", "blockend"} /\ fresh /\ ~stopped /\ p.cnt >= 1
   /\ k = p.cnt /\ k < Len(tape)
-  /\ file' = << [snap |-> Save(pm, fmt), fs |-> Remaining(Fs, p.fi), base |-> 0] >>
+  /\ file' = << [snap |-> Save(pm, fmt), fs |-> Remaining(Fs, p.fi), base |-> 0, snapmode |-> "first"] >>
              \o SubSeq(file, pb + 1, Len(file))
   /\ phase' = "written" /\ stopped' = TRUE
   /\ UNCHANGED <<cfg, flags, pm, pl, pb, p, fresh, err>> /\ UNCHANGED rvars
